@@ -40,6 +40,8 @@ def enumerate_cases(tier, scope):
         for name in ('async2', 'wait1', 'chain', 'waitwait', 'failing', 'gated', 'missing_out'):
             for sched in gen.schedules(ALPHABET, k, max_gap):
                 yield {'program': cat[name], 'schedule': sched, 'tag': f'{scope}:{name}'}
+                if k == 1:
+                    yield {'program': cat[name], 'schedule': sched, 'cleanup_raises': 1, 'tag': f'{scope}:{name}:cleanup-raises'}
     elif scope == 'reload':
         # control requests (in particular cancelling the future) on an instance loaded from a checkpoint
         for name in ('wait1', 'waitwait', 'gated', 'missing_out'):
@@ -111,7 +113,10 @@ def _cases(draw, tier):
     prog = draw(gen.programs(max_steps=4 if tier == 'quick' else 6, self_calls=('pause', 'play', 'kill', 'cancel'), soon=True))
     sched = draw(gen.control_schedules(['pause', 'play', 'kill', 'kill', 'resume', 'cancel', 'open', 'reload', 'cancel_task', 'restep', 'withdraw'], max_events=4, max_gap=4))
     plans = draw(gen.listener_plans(['kill', 'pause', 'play'])) if draw(st.booleans()) else []
-    return {'program': prog, 'schedule': sched, 'listener': plans}
+    case = {'program': prog, 'schedule': sched, 'listener': plans}
+    if draw(st.integers(0, 2)) == 0:
+        case['cleanup_raises'] = draw(st.integers(0, 2))  # a user cleanup that raises when the process is closed
+    return case
 
 
 def strategy(tier):
